@@ -9,6 +9,9 @@ use std::collections::BTreeMap;
 
 pub const FN_NAMES: [&str; 5] = ["f0", "f1", "f2", "true", "mb"];
 pub const EXIT_MARK: u16 = 9999;
+/// recorded by an EXIT trap that the program itself sets (`trap 'mark 9998' EXIT`), in whatever
+/// process runs it
+pub const OWN_EXIT_MARK: u16 = 9998;
 pub const MB_MARK: u16 = 9005;
 
 #[derive(Clone, Debug, PartialEq, Eq, Hash, Serialize, Deserialize)]
@@ -57,6 +60,9 @@ pub enum Simple {
     Return(Option<u8>),
     Exit(Option<u8>),
     SetErrexit(bool),
+    /// `trap 'mark 9998' EXIT`: the process that runs it (the main shell or a subshell) records the
+    /// mark exactly once when it ends, however it ends
+    TrapExit,
     Fail(Fail),
     /// assignment-only command `v0=... v1=...`: each value is plain text (None) or `$(st N)`
     Assigns(Vec<Option<u8>>),
@@ -199,7 +205,7 @@ fn san(n: &mut Node, c: &mut SanCtx, nl: &mut u16, nm: &mut u16, allow_fail: boo
                         }
                     }
                 }
-                Simple::SetErrexit(_) => {
+                Simple::SetErrexit(_) | Simple::TrapExit => {
                     if !allow_fail {
                         *s = Simple::Colon;
                     }
@@ -409,6 +415,7 @@ fn r_simple(s: &Simple, sf: &mut Surface, out: &mut String) {
             }
         }
         Simple::AliasSt(n) => out.push_str(&format!("ast{}", n % 4)),
+        Simple::TrapExit => out.push_str(&format!("trap 'mark {OWN_EXIT_MARK}' EXIT")),
         Simple::SetErrexit(true) => out.push_str(if sf.next(2) == 0 { "set -e" } else { "set -o errexit" }),
         Simple::SetErrexit(false) => out.push_str(if sf.next(2) == 0 { "set +e" } else { "set +o errexit" }),
         Simple::Fail(f) => match f {
@@ -696,6 +703,8 @@ struct Proc {
     cond_depth: u32,
     trace: Trace,
     steps: u32,
+    /// this process has set its own EXIT trap (not inherited by subshells)
+    own_exit_trap: bool,
 }
 
 pub struct Model<'a> {
@@ -851,6 +860,11 @@ impl<'a> Model<'a> {
                 p.errexit = *on;
                 p.status = Sym::Known(0);
             }
+            Simple::TrapExit => {
+                self.class("own-exit-trap-set");
+                p.own_exit_trap = true;
+                p.status = Sym::Known(0);
+            }
             Simple::Assigns(vals) => {
                 // XCU 2.9.1: no command name => status of the last command substitution performed,
                 // or zero if there was none
@@ -903,7 +917,16 @@ impl<'a> Model<'a> {
     fn subshell(&mut self, p: &mut Proc, body: &Node) -> Sym {
         let mut child = p.clone();
         child.trace = vec![];
+        // traps with command actions are reset on entry to a subshell
+        child.own_exit_trap = false;
         let _ = self.exec(&mut child, body);
+        if child.own_exit_trap {
+            // docs/src/termination.md: the EXIT trap is executed regardless of how the (sub)shell
+            // exits - end of its commands, `exit`, errexit or a shell error - exactly once
+            self.class("subshell-runs-its-own-exit-trap");
+            child.trace.push((OWN_EXIT_MARK, child.status));
+            self.global.push((OWN_EXIT_MARK, child.status));
+        }
         // any flow ends the child; its exit status is $?
         let st = match child.status {
             Sym::Known(v) => Sym::Known(v & 0xff),
@@ -1142,9 +1165,14 @@ pub fn expected(prog: &Program) -> Expected {
         cond_depth: 0,
         trace: vec![],
         steps: 0,
+        own_exit_trap: false,
     };
     let _ = m.exec(&mut p, &prog.body);
-    if prog.exit_trap {
+    if p.own_exit_trap {
+        // the program replaced the EXIT trap of the main shell
+        p.trace.push((OWN_EXIT_MARK, p.status));
+        m.global.push((OWN_EXIT_MARK, p.status));
+    } else if prog.exit_trap {
         p.trace.push((EXIT_MARK, p.status));
         m.global.push((EXIT_MARK, p.status));
     }
